@@ -40,6 +40,12 @@ type Program struct {
 	NoF03  bool        `json:"nof03,omitempty"`
 	Snap   [][2]string `json:"snap"`
 	Ops    []Op        `json:"ops"`
+	// target "merge": UnionIter driven directly with two scripted iterators
+	D     [][2]string `json:"d,omitempty"`
+	S     [][2]string `json:"s,omitempty"`
+	Rev   bool        `json:"rev,omitempty"`
+	FailD int         `json:"faild,omitempty"` // the dirty iterator's Next fails when leaving entry FailD-1 (0 = never)
+	FailS int         `json:"fails,omitempty"`
 }
 
 func hx(b []byte) string { return hex.EncodeToString(b) }
